@@ -73,7 +73,7 @@ def t4_conds(mode, timeout=300, quick=False):
     out = []
     nk = 4 + len(G.EDIT_TOKENS)
     for sc in range(G.NCORPUS):
-        for lo, hi in parts(nk, 4):
+        for lo, hi in parts(nk, 4 if quick else 16):
             out.append(Cond("t4-script%d-edit%02d_%02d" % (sc, lo, hi), "harness/c01gen.py", "t4",
                             env={"T1_MODE": mode, "T4_SCRIPT": sc, "T4_KLO": lo, "T4_KHI": hi,
                                  "T4_FREEZE": "eol,comment,tail" if quick else ""}, timeout=timeout))
